@@ -95,6 +95,15 @@ pub fn run(k: &str, c: &Value) -> Value {
             json!({"lasts": lasts, "taken": taken, "reversed": rev.iter().map(circ).collect::<Vec<_>>(), "twice": rev2.iter().map(circ).collect::<Vec<_>>(),
                    "init": init.iter().map(circ).collect::<Vec<_>>(), "tmax": find_tmax_circle(&init).map(circ)})
         }
+        "c10.inscribed" => {
+            // the bisection at the core of the analysis, on a given spanning ray (both ends on the section)
+            let curve = match Curve2::from_points(&p2s(&c["pts"]), fx(&c["ctol"]), c["closed"].as_bool().unwrap()) { Ok(c) => c, Err(_) => return json!({"err_curve": true}) };
+            let ray = SpanningRay::new(p2(&c["p0"]), p2(&c["p1"]));
+            match std::panic::catch_unwind(std::panic::AssertUnwindSafe(|| engeom::airfoil::helpers::inscribed_from_spanning_ray(&curve, &ray, fx(&c["tol"])))) {
+                Ok(ic) => json!({"circle": circ(&ic), "curve": curve.points().iter().map(hp2).collect::<Vec<_>>()}),
+                Err(_) => json!({"panic": true}),
+            }
+        }
         "c10.orient" => {
             // airfoil/orientation.rs on synthetic stations (the section argument is not used by either implementation)
             let init: Vec<InscribedCircle> = c["init"].as_array().unwrap().iter().map(mk_circle).collect();
